@@ -541,6 +541,12 @@ TightLaw(toks) ==
   /\ \A j \in {x \in 1..Len(gaps) : gaps[x] = " "} :
        LexSig(Spell(toks, [gaps EXCEPT ![j] = ""], 1)) # LexSig(Spaced(toks))
 
+\* the families whose trees are also written tight / whose staged forms are checked by StageLaw (lexing in TLC is
+\* slow: the small families that put every operator next to every suffix, prefix and operand kind), and those whose
+\* staged forms are run
+TightFams == {"bin1", "lvl3", "pre1", "prepre", "presuf", "suf1", "sufsuf", "inner"}
+StageFams == TightFams \cup {"bin2"}
+
 \* ------------------------------------------------------------------ states
 VARIABLES fam, i1, d, done
 vars == <<fam, i1, d, done>>
@@ -623,8 +629,8 @@ Laws ==
     LET cs == Cases(d)
         flat == Flat(d)
     IN /\ \A t \in cs : TreeLaws(t, flat)
-       /\ \A t \in cs : StageLaw(t, fam, Len(d.ops) + 1, NCand(fam, Len(d.ops) + 1))
-       /\ \A t \in cs : TightLaw(Render(t))
+       /\ fam \in TightFams => \A t \in cs : StageLaw(t, fam, Len(d.ops) + 1, NCand(fam, Len(d.ops) + 1))
+       /\ fam \in TightFams => \A t \in cs : TightLaw(Render(t))
        /\ LET cseq == SetToSeq(cs) IN \A j \in 1..Len(cseq) : SiteLaw(cseq[j], SitesOf(cseq[j], j))
        \* the bare token sequence, where it has a meaning, is the minimal rendering or one of the bare texts of its tree
        /\ ParseExpr(flat).k # "error" => (Render(ParseExpr(flat)) = flat \/ flat \in Bares(ParseExpr(flat)))
@@ -684,8 +690,8 @@ CaseVec(t, cseq, np, nc, table, j) ==
       alts |-> [x \in 1..(Len(cseq) - 1) |-> Texts(FullParen(cseq[IF x < j THEN x ELSE x + 1]))],
       bares |-> LET bs == SetToSeq(Bares(t)) IN [x \in 1..Len(bs) |-> Texts(bs[x])],
       sites |-> SetToSeq(SitesOf(t, j)),
-      gaps |-> Gaps(rt),
-      stage |-> IF Stageable(t)
+      gaps |-> IF fam \in TightFams THEN Gaps(rt) ELSE <<>>,
+      stage |-> IF Stageable(t) /\ fam \in StageFams
                 THEN LET sg == Stage(t) IN
                      <<[steps |-> [q \in 1..Len(sg.steps) |-> [tmp |-> sg.steps[q].tmp, toks |-> Texts(sg.steps[q].toks)]],
                         atom |-> Texts(sg.atom), fruns |-> FRuns(np, j)]>>
